@@ -196,6 +196,46 @@ def apply_transform(root: str, spec) -> str | None:
             with open(p, 'w', encoding='utf-8') as f:
                 f.write(ast.unparse(tree) + '\n')
         return None
+    if kind == 'extract-tails':
+        # the second half of every VM handler body moves into a new module-level helper
+        # `_tail_<handler>(tape, stack, cache, <locals it needs>)` that the handler calls last
+        p = os.path.join(root, 'tapescript/functions.py')
+        tree = ast.parse(open(p, encoding='utf-8').read())
+        new_body = []
+        n_done = 0
+        for st in tree.body:
+            if isinstance(st, ast.FunctionDef) and (st.name.startswith('OP_') or st.name == 'NOP') and \
+                    len(st.args.args) == 3 and not st.args.defaults:
+                body = st.body
+                doc = 1 if (body and isinstance(body[0], ast.Expr) and isinstance(body[0].value, ast.Constant)) else 0
+                rest = body[doc:]
+                bad = any(x is not st and isinstance(x, (ast.Lambda, ast.FunctionDef, ast.Global, ast.Nonlocal, ast.Yield)) for x in ast.walk(st))
+                if len(rest) >= 3 and not bad:
+                    k = len(rest) // 2
+                    head, tail = rest[:k], rest[k:]
+                    params = [a.arg for a in st.args.args]
+                    stored_head = {x.id for h in head for x in ast.walk(h) if isinstance(x, ast.Name) and isinstance(x.ctx, ast.Store)}
+                    used_tail = []
+                    for t in tail:
+                        for x in ast.walk(t):
+                            if isinstance(x, ast.Name) and x.id in stored_head and x.id not in params and x.id not in used_tail:
+                                used_tail.append(x.id)
+                    # a return inside the head would skip the tail: fine (the call is simply not reached)
+                    hname = '_tail_' + st.name
+                    hargs = ast.arguments(posonlyargs=[], args=[ast.arg(arg=a.arg, annotation=a.annotation) for a in st.args.args] +
+                                          [ast.arg(arg=u) for u in used_tail], kwonlyargs=[], kw_defaults=[], defaults=[])
+                    helper = ast.FunctionDef(name=hname, args=hargs, body=tail, decorator_list=[], returns=None, type_params=[])
+                    call = ast.Expr(value=ast.Call(func=ast.Name(id=hname, ctx=ast.Load()),
+                                                   args=[ast.Name(id=x, ctx=ast.Load()) for x in params + used_tail], keywords=[]))
+                    st.body = body[:doc] + head + [call]
+                    new_body.append(helper)
+                    n_done += 1
+            new_body.append(st)
+        tree.body = new_body
+        ast.fix_missing_locations(tree)
+        with open(p, 'w', encoding='utf-8') as f:
+            f.write(ast.unparse(tree) + '\n')
+        return None if n_done >= 30 else f'only {n_done} handlers were split'
     if kind == 'expand-augassign':
         # `x += e` -> `x = x + e` for plain names and attribute/subscript targets without side effects in the target
         class Aug(ast.NodeTransformer):
